@@ -252,3 +252,22 @@ pub fn float_fns_script(op: &str, bits: usize, args: &[u128]) -> String {
     _ => "bad-op".to_string(),
   }
 }
+
+/// `NumDecompressor::new` for the prefixes: the two worst-case bit bounds per
+/// number block (`max_bits_read`, `max_bits_overshot` maximised over the
+/// prefixes) that decide when the unchecked decoding path may run, and the
+/// GCD-arithmetic switch. Answers `ok <max_bits> <max_overshoot> <use_gcd>`
+/// or `err:<kind>`.
+pub fn num_decompressor_bounds_script(bits: usize, ps: &[VPrefix], n: usize) -> String {
+  use crate::num_decompressor::NumDecompressor;
+  with_unsigned!(bits, U, {
+    let prefixes = mk_prefixes::<U>(ps, |x| x as U, |x| x as U);
+    match NumDecompressor::<U>::new(n, 0, prefixes) {
+      Ok(nd) => {
+        let (max_bits, max_overshoot, use_gcd) = nd.verif_bounds();
+        format!("ok {} {} {}", max_bits, max_overshoot, use_gcd as u8)
+      }
+      Err(e) => format!("err:{}", kind(&e)),
+    }
+  })
+}
